@@ -43,6 +43,10 @@ def spec_of(p):
         except BaseException as e:  # noqa
             vf.append(type(e).__name__)
     d["vf"] = vf
+    try:
+        d["median"] = hexf(p.value_for(0.5, ignore_prior_limits=True))
+    except BaseException as e:  # noqa
+        d["median"] = type(e).__name__
     wm = getattr(p, "width_modifier", None)
     d["wm"] = None if wm is None else {"type": wm.name_of_class(), "value": hexf(wm.value)}
     return d
